@@ -567,4 +567,622 @@ theorem run_init_order_once (cfg : Cfg) (fuel : Nat) (sched : List Act) (pick : 
       have := ht.1.shape _ hx
       simp [isInitEv] at this
 
+/-! ## the link between the descriptions of the configuration and the module objects of the node
+
+`LI W st`: every description the node knows is one of `W`; every module object was made from a description of `W` (same
+class, poll flag, parameters, scan list — only the `io` attachment may have been filled in) or is an automatic
+communicator listed in `ioDict`; the modules are exactly the names of the objects; an initialised module is a module of
+the node; and an initialised module that did not fail and has something to poll or to write is registered with the poll
+thread of a module of the node. -/
+
+def Sim (x k : ModCfg) : Prop :=
+  x.name = k.name ∧ x.cls = k.cls ∧ x.poll = k.poll ∧ x.params = k.params ∧ x.scan = k.scan
+
+/-- `if self.enablePoll or self.writeDict:` -/
+def needsPoll (c : ModCfg) : Bool := c.poll || !(writeDict c).isEmpty
+
+structure LI (W : List ModCfg) (st : St) : Prop where
+  knownW : ∀ k ∈ st.known, k ∈ W
+  mcfgW : ∀ x ∈ st.mcfg, (∃ k ∈ W, Sim x k) ∨ (∃ p ∈ st.ioDict, x = autoIo p.2)
+  names : ∀ n, n ∈ st.modules ↔ ∃ x ∈ st.mcfg, x.name = n
+  initedMods : ∀ m ∈ st.inited, m ∈ st.modules
+  reg : ∀ m ∈ st.inited, m ∉ st.failed → needsPoll (cfgOf st m) = true → ∃ t ∈ st.modules, (t, m) ∈ st.groups
+
+/-- the object of a module that exists is not affected by objects created later -/
+theorem cfgOf_stable {st st' : St} (hm : ∃ ext, st'.mcfg = st.mcfg ++ ext) (n : Name)
+    (hn : ∃ x ∈ st.mcfg, x.name = n) : cfgOf st' n = cfgOf st n := by
+  obtain ⟨ext, he⟩ := hm
+  obtain ⟨x, hx, hxn⟩ := hn
+  unfold cfgOf findCfg
+  rw [he, List.find?_append]
+  have : (st.mcfg.find? (fun c => c.name == n)).isSome := by
+    rw [List.find?_isSome]
+    exact ⟨x, hx, by simp [hxn]⟩
+  cases hf : st.mcfg.find? (fun c => c.name == n) with
+  | none => rw [hf] at this; cases this
+  | some y => rfl
+
+/-- a piece that only adds (`Ext`) and leaves the set of initialised / failed modules alone keeps the link -/
+theorem LI.of_ext {W : List ModCfg} {st st' : St} (h : LI W st) (e : Ext st st')
+    (hi : st'.inited = st.inited) (hf : st'.failed = st.failed) (hmods : st'.modules = st.modules)
+    (hmc : st'.mcfg = st.mcfg) (hio : st'.ioDict = st.ioDict) : LI W st' := by
+  refine ⟨by rw [e.known]; exact h.knownW, by rw [hmc, hio]; exact h.mcfgW, by rw [hmods, hmc]; exact h.names,
+    by rw [hi, hmods]; exact h.initedMods, ?_⟩
+  intro m hm hnf hnp
+  rw [hi] at hm
+  rw [hf] at hnf
+  have hc : cfgOf st' m = cfgOf st m := by unfold cfgOf; rw [hmc]
+  rw [hc] at hnp
+  obtain ⟨t, ht, hg⟩ := h.reg m hm hnf hnp
+  obtain ⟨ext, hext⟩ := e.groups
+  exact ⟨t, by rw [hmods]; exact ht, by rw [hext]; exact List.mem_append_left _ hg⟩
+
+theorem li_emit {W : List ModCfg} {st : St} (h : LI W st) (e : Ev) : LI W (emit st e) :=
+  h.of_ext (ext_emit st e) rfl rfl rfl rfl rfl
+
+theorem li_addEdge {W : List ModCfg} {st : St} (h : LI W st) (u d : Name) : LI W (addEdge st u d) := by
+  unfold addEdge
+  split
+  · exact h
+  · exact h.of_ext (Ext.of_same rfl rfl rfl rfl rfl rfl) rfl rfl rfl rfl rfl
+
+theorem li_groups {W : List ModCfg} {st : St} (h : LI W st) (g : List (Name × Name)) :
+    LI W { st with groups := st.groups ++ g } :=
+  h.of_ext (ext_groups st g) rfl rfl rfl rfl rfl
+
+theorem sim_setIo (c : ModCfg) (io : Name) : Sim (setIo c io) c := ⟨rfl, rfl, rfl, rfl, rfl⟩
+
+/-- a new module object (and what else may have been appended to the tables) -/
+theorem li_addModule {W : List ModCfg} {st : St} (h : LI W st) (x : ModCfg)
+    (hx : (∃ k ∈ W, Sim x k) ∨ (∃ p ∈ st.ioDict, x = autoIo p.2)) : LI W (addModule st x) := by
+  have hmods : ∀ n, n ∈ (addModule st x).modules ↔ n ∈ st.modules ∨ n = x.name := by
+    intro n
+    simp only [addModule]
+    split
+    · rename_i hc
+      have : x.name ∈ st.modules := by simpa using hc
+      constructor
+      · exact Or.inl
+      · rintro (h | rfl)
+        · exact h
+        · exact this
+    · simp
+  refine ⟨h.knownW, ?_, ?_, ?_, ?_⟩
+  · intro y hy
+    simp only [addModule, List.mem_append, List.mem_singleton] at hy
+    rcases hy with hy | rfl
+    · exact h.mcfgW y hy
+    · exact hx
+  · intro n
+    rw [hmods, h.names]
+    simp only [addModule, List.mem_append, List.mem_singleton]
+    constructor
+    · rintro (⟨y, hy, hn⟩ | rfl)
+      · exact ⟨y, Or.inl hy, hn⟩
+      · exact ⟨x, Or.inr rfl, rfl⟩
+    · rintro ⟨y, hy | rfl, hn⟩
+      · exact Or.inl ⟨y, hy, hn⟩
+      · exact Or.inr hn.symm
+  · intro m hm
+    exact (hmods m).mpr (Or.inl (h.initedMods m hm))
+  · intro m hm hnf hnp
+    have hst : cfgOf (addModule st x) m = cfgOf st m :=
+      cfgOf_stable ⟨[x], rfl⟩ m ((h.names m).mp (h.initedMods m hm))
+    rw [hst] at hnp
+    obtain ⟨t, ht, hg⟩ := h.reg m hm hnf hnp
+    exact ⟨t, (hmods t).mpr (Or.inl ht), hg⟩
+
+theorem li_ioDict {W : List ModCfg} {st : St} (h : LI W st) (e : String × Name) :
+    LI W { st with ioDict := st.ioDict ++ [e] } := by
+  refine ⟨h.knownW, ?_, h.names, h.initedMods, h.reg⟩
+  intro y hy
+  rcases h.mcfgW y hy with hk | ⟨p, hp, rfl⟩
+  · exact Or.inl hk
+  · exact Or.inr ⟨p, List.mem_append_left _ hp, rfl⟩
+
+/-- `HasIO.__init__`: the automatic communicator, with its entry in `ioDict` -/
+theorem li_hasIoCreate {W : List ModCfg} {st : St} (h : LI W st) (c : ModCfg) :
+    LI W (hasIoCreate st c).1 ∧ Sim (hasIoCreate st c).2 c := by
+  rcases c with ⟨n, cls, ex, po, pa, atts, te, ti, fe, fi, uri, sc, de, wf, rf, pf⟩
+  cases cls <;> cases uri <;> simp only [hasIoCreate] <;> try exact ⟨h, ⟨rfl, rfl, rfl, rfl, rfl⟩⟩
+  rename_i uri
+  split
+  · exact ⟨h, ⟨rfl, rfl, rfl, rfl, rfl⟩⟩
+  · refine ⟨?_, ⟨rfl, rfl, rfl, rfl, rfl⟩⟩
+    have h1 := li_ioDict h (uri, n ++ "_io")
+    have h2 := li_addModule h1 (autoIo (n ++ "_io")) (Or.inr ⟨(uri, n ++ "_io"), by simp, rfl⟩)
+    exact h2
+
+theorem li_getModuleInstance {W : List ModCfg} {st : St} (h : LI W st) (name : Name) :
+    LI W (getModuleInstance st name).1 := by
+  unfold getModuleInstance
+  split
+  · exact h
+  · split
+    · exact h
+    · rename_i c hc
+      have hcW : c ∈ W := h.knownW c (findCfg_some hc).1
+      split
+      · exact h.of_ext (by
+          refine ⟨rfl, by intro h; simp [addErr] at h, fun _ h => h, ⟨[], by simp [addErr]⟩, ⟨[], by simp [addErr]⟩,
+            ⟨[], by simp [addErr]⟩, ?_⟩
+          intro _ h; simp [addErr] at h) rfl rfl rfl rfl rfl
+      · have key := li_hasIoCreate h c
+        exact li_addModule key.1 _ (Or.inl ⟨c, hcW, key.2⟩)
+
+def GSpecL (W : List ModCfg) (rec : St → Name → St × Res) : Prop :=
+  ∀ st name, LI W st → LI W (rec st name).1 ∧ ∀ m, (rec st name).2 = Res.ok m → m ∈ (rec st name).1.modules
+
+def StepL (W : List ModCfg) (f : Step) : Prop := ∀ st, LI W st → LI W (f st).1
+
+theorem li_resolve {W : List ModCfg} {rec : St → Name → St × Res} (h : GSpecL W rec) (u : Name) (att : Att) (st : St)
+    (hl : LI W st) : LI W (resolve rec u att st).1 ∧
+      ∀ d, (resolve rec u att st).2 = RRes.mod d → d ∈ (resolve rec u att st).1.modules := by
+  unfold resolve
+  cases att.target with
+  | none => exact ⟨hl, by intro d h; cases h⟩
+  | some t =>
+    obtain ⟨l1, r1⟩ := h st t hl
+    cases hr : rec st t with
+    | mk st1 res =>
+      rw [hr] at l1 r1
+      simp only [hr]
+      cases res with
+      | raised cls => exact ⟨l1, by intro d h; cases h⟩
+      | none => exact ⟨l1, by intro d h; cases h⟩
+      | ok d =>
+        simp only
+        split
+        · split
+          · exact ⟨l1, by intro d h; cases h⟩
+          · refine ⟨li_addEdge l1 u d, ?_⟩
+            intro d' hd'
+            cases hd'
+            have : (addEdge st1 u d).modules = st1.modules := by unfold addEdge; split <;> rfl
+            rw [this]
+            exact r1 d rfl
+        · exact ⟨l1, by intro d h; cases h⟩
+
+theorem li_touch {W : List ModCfg} {rec : St → Name → St × Res} (h : GSpecL W rec) (c : ModCfg) (a : String) :
+    StepL W (touch rec c a) := by
+  intro st hl
+  unfold touch
+  cases findAtt c a with
+  | none => exact hl
+  | some att =>
+    have f1 := (li_resolve h c.name att st hl).1
+    cases hr : resolve rec c.name att st with
+    | mk st1 res =>
+      rw [hr] at f1
+      simp only [hr]
+      cases res with
+      | mod d => exact li_emit f1 _
+      | nothing => exact f1
+      | raised cls => exact f1
+
+theorem li_resolveStep {W : List ModCfg} {rec : St → Name → St × Res} (h : GSpecL W rec) (c : ModCfg) (att : Att) :
+    StepL W (resolveStep rec c att) := by
+  intro st hl
+  unfold resolveStep
+  have f1 := (li_resolve h c.name att st hl).1
+  cases hr : resolve rec c.name att st with
+  | mk st1 res =>
+    rw [hr] at f1
+    cases res <;> exact f1
+
+theorem li_hasIoCheck {W : List ModCfg} {rec : St → Name → St × Res} (h : GSpecL W rec) (c : ModCfg) :
+    StepL W (hasIoCheck rec c) := by
+  intro st hl
+  unfold hasIoCheck
+  split
+  · cases findAtt c "io" with
+    | none => exact hl
+    | some att =>
+      have f1 := (li_resolve h c.name att st hl).1
+      cases hr : resolve rec c.name att st with
+      | mk st1 res =>
+        rw [hr] at f1
+        simp only [hr]
+        cases res <;> exact f1
+  · exact hl
+
+/-- `Module.initModule` registers the module: with the poll thread of a module of the node -/
+theorem li_registerPoll {W : List ModCfg} {rec : St → Name → St × Res} (h : GSpecL W rec) (c : ModCfg) (st : St)
+    (hl : LI W st) : LI W (registerPoll rec c st).1 ∧
+      (c.name ∈ st.modules → (registerPoll rec c st).2 = none → needsPoll c = true →
+        ∃ t ∈ (registerPoll rec c st).1.modules, (t, c.name) ∈ (registerPoll rec c st).1.groups) := by
+  unfold registerPoll
+  split
+  · split
+    · cases findAtt c "io" with
+      | none => exact ⟨hl, by intro _ h; cases h⟩
+      | some att =>
+        obtain ⟨f1, r1⟩ := li_resolve h c.name att st hl
+        cases hr : resolve rec c.name att st with
+        | mk st1 res =>
+          rw [hr] at f1 r1
+          simp only [hr]
+          cases res with
+          | mod d =>
+            refine ⟨li_groups f1 _, ?_⟩
+            intro _ _ _
+            exact ⟨d, r1 d rfl, by simp⟩
+          | nothing => exact ⟨f1, by intro _ h; cases h⟩
+          | raised cls => exact ⟨f1, by intro _ h; cases h⟩
+    · refine ⟨li_groups hl _, ?_⟩
+      intro hm _ _
+      exact ⟨c.name, hm, by simp⟩
+  · rename_i hc
+    refine ⟨hl, ?_⟩
+    intro _ _ hn
+    exact absurd hn hc
+
+theorem li_seq {W : List ModCfg} : ∀ (fs : List Step), (∀ f ∈ fs, StepL W f) → StepL W (seq fs) := by
+  intro fs
+  induction fs with
+  | nil => intro _ st hl; exact hl
+  | cons f fs ih =>
+    intro hall st hl
+    have f1 := hall f (by simp) st hl
+    simp only [seq]
+    cases hf : f st with
+    | mk st1 e =>
+      rw [hf] at f1
+      cases e with
+      | some e => exact f1
+      | none => exact ih (fun g hg => hall g (by simp [hg])) st1 f1
+
+/-- a monotone fact `Q` established by one step `g` of a sequence (under a monotone precondition `P`) holds at the end
+of every run of the sequence that no exception leaves -/
+theorem seq_establish (P Q : St → Prop) (g : Step) : ∀ (fs : List Step),
+    (∀ f ∈ fs, ∀ st, (P st → P (f st).1) ∧ (Q st → Q (f st).1)) → g ∈ fs →
+    (∀ st, P st → (g st).2 = none → Q (g st).1) →
+    ∀ st, P st → (seq fs st).2 = none → Q (seq fs st).1 := by
+  intro fs
+  induction fs with
+  | nil => intro _ hg; cases hg
+  | cons f fs ih =>
+    intro hall hg hest st hp hnone
+    simp only [seq] at hnone ⊢
+    cases hf : f st with
+    | mk st1 e =>
+      rw [hf] at hnone
+      cases e with
+      | some e => cases hnone
+      | none =>
+        simp only at hnone ⊢
+        have hp1 : P st1 := by have := (hall f (by simp) st).1 hp; rwa [hf] at this
+        rcases List.mem_cons.mp hg with rfl | hg'
+        · have hq1 : Q st1 := by have := hest st hp (by rw [hf]); rwa [hf] at this
+          -- the rest of the sequence keeps `Q`
+          have keep : ∀ (l : List Step), (∀ f ∈ l, ∀ st, (P st → P (f st).1) ∧ (Q st → Q (f st).1)) →
+              ∀ s, Q s → Q (seq l s).1 := by
+            intro l
+            induction l with
+            | nil => intro _ s hs; exact hs
+            | cons a l ihl =>
+              intro hl s hs
+              simp only [seq]
+              have hqa := (hl a (by simp) s).2 hs
+              cases ha : a s with
+              | mk s1 e1 =>
+                rw [ha] at hqa
+                cases e1 with
+                | some e => exact hqa
+                | none => exact ihl (fun f hf => hl f (by simp [hf])) s1 hqa
+          exact keep fs (fun f hf => hall f (by simp [hf])) st1 hq1
+        · exact ih (fun f hf => hall f (by simp [hf])) hg' hest st1 hp1 hnone
+
+/-- the steps of the body of `get_module`, as a list -/
+def bodySteps (rec : St → Name → St × Res) (c : ModCfg) : List Step :=
+  [emitStep (.early c.name)] ++ c.touchEarly.map (touch rec c) ++ [failIf c.failEarly "ValueError",
+    emitStep (.init c.name), hasIoCheck rec c, registerPoll rec c] ++ c.touchInit.map (touch rec c) ++
+    [failIf c.failInit "ValueError"] ++ c.atts.map (resolveStep rec c)
+
+theorem initBody_steps (rec : St → Name → St × Res) (c : ModCfg) : initBody rec c = seq (bodySteps rec c) := rfl
+
+theorem bodySteps_ok {W : List ModCfg} {rec : St → Name → St × Res} (h : GSpecL W rec) (hE : GSpecE rec) (c : ModCfg) :
+    ∀ f ∈ bodySteps rec c, StepL W f ∧ StepE f := by
+  intro f hf
+  simp only [bodySteps, List.mem_append, List.mem_map, List.mem_singleton, List.mem_cons, List.not_mem_nil,
+    or_false] at hf
+  rcases hf with ((((rfl | ⟨a, _, rfl⟩) | (rfl | rfl | rfl | rfl)) | ⟨a, _, rfl⟩) | rfl) | ⟨a, _, rfl⟩
+  · exact ⟨fun st hl => li_emit hl _, ext_emitStep _⟩
+  · exact ⟨li_touch h c a, ext_touch hE c a⟩
+  · exact ⟨fun st hl => hl, ext_failIf _ _⟩
+  · exact ⟨fun st hl => li_emit hl _, ext_emitStep _⟩
+  · exact ⟨li_hasIoCheck h c, ext_hasIoCheck hE c⟩
+  · exact ⟨fun st hl => (li_registerPoll h c st hl).1, ext_registerPoll hE c⟩
+  · exact ⟨li_touch h c a, ext_touch hE c a⟩
+  · exact ⟨fun st hl => hl, ext_failIf _ _⟩
+  · exact ⟨li_resolveStep h c a, ext_resolveStep hE c a⟩
+
+/-- the body of `get_module` for the module object `c`: the link is kept, and when no exception leaves the body a
+module with something to poll or to write is registered with the poll thread of a module of the node -/
+theorem li_initBody {W : List ModCfg} {rec : St → Name → St × Res} (h : GSpecL W rec) (hE : GSpecE rec) (c : ModCfg)
+    (st : St) (hl : LI W st) (hm : c.name ∈ st.modules) :
+    LI W (initBody rec c st).1 ∧
+    ((initBody rec c st).2 = none → needsPoll c = true →
+      ∃ t ∈ (initBody rec c st).1.modules, (t, c.name) ∈ (initBody rec c st).1.groups) := by
+  rw [initBody_steps]
+  refine ⟨li_seq _ (fun f hf => (bodySteps_ok h hE c f hf).1) st hl, ?_⟩
+  intro hnone hnp
+  apply seq_establish (fun s => LI W s ∧ c.name ∈ s.modules)
+    (fun s => ∃ t ∈ s.modules, (t, c.name) ∈ s.groups) (registerPoll rec c) (bodySteps rec c)
+  · intro f hf s
+    obtain ⟨hL, hEx⟩ := bodySteps_ok h hE c f hf
+    refine ⟨fun hp => ⟨hL s hp.1, (hEx s).mods _ hp.2⟩, ?_⟩
+    rintro ⟨t, ht, hg⟩
+    obtain ⟨ext, hext⟩ := (hEx s).groups
+    exact ⟨t, (hEx s).mods _ ht, by rw [hext]; exact List.mem_append_left _ hg⟩
+  · simp [bodySteps]
+  · intro s hp hn
+    exact (li_registerPoll h c s hp.1).2 hp.2 hn hnp
+  · exact ⟨hl, hm⟩
+  · exact hnone
+
+theorem needsPoll_setName (c : ModCfg) (n : Name) : needsPoll { c with name := n } = needsPoll c := rfl
+
+theorem li_getModule (W : List ModCfg) : ∀ fuel, GSpecL W (getModule fuel) := by
+  intro fuel
+  induction fuel with
+  | zero =>
+    intro st name hl
+    exact ⟨hl.of_ext (Ext.of_same rfl rfl rfl rfl rfl rfl) rfl rfl rfl rfl rfl, by intro m h; cases h⟩
+  | succ fuel ih =>
+    intro st name hl
+    have lI := li_getModuleInstance hl name
+    have hres := (getModuleInstance_res st name).1
+    simp only [getModule]
+    cases hI : getModuleInstance st name with
+    | mk sI r =>
+      rw [hI] at lI hres
+      cases r with
+      | none => exact ⟨lI, by intro m h; cases h⟩
+      | raised cls => exact ⟨lI, by intro m h; cases h⟩
+      | ok m =>
+        have hmI : m ∈ sI.modules := by
+          obtain ⟨e, hm⟩ := hres m rfl
+          rw [e]; exact hm
+        simp only
+        split
+        · exact ⟨lI, by intro m' h; cases h; exact hmI⟩
+        · split
+          · exact ⟨lI, by intro m' h; cases h⟩
+          · have l1 : LI W { sI with stack := m :: sI.stack } :=
+              lI.of_ext (Ext.of_same rfl rfl rfl rfl rfl rfl) rfl rfl rfl rfl rfl
+            have hb := li_initBody ih (ext_getModule fuel) { cfgOf sI m with name := m } _ l1 hmI
+            have e2 := ext_initBody (ext_getModule fuel) { cfgOf sI m with name := m } { sI with stack := m :: sI.stack }
+            cases hB : initBody (getModule fuel) { cfgOf sI m with name := m } { sI with stack := m :: sI.stack } with
+            | mk st2 exc =>
+              rw [hB] at hb e2
+              obtain ⟨l2, hreg⟩ := hb
+              have hm2 : m ∈ st2.modules := e2.mods m hmI
+              have hcf : cfgOf st2 m = cfgOf sI m := cfgOf_stable e2.mcfg m ((lI.names m).mp hmI)
+              refine ⟨?_, by intro m' h; cases h; simpa [finishInit] using hm2⟩
+              have hk : (finishInit st2 m exc).known = st2.known := by cases exc <;> rfl
+              have hmc : (finishInit st2 m exc).mcfg = st2.mcfg := by cases exc <;> rfl
+              have hio : (finishInit st2 m exc).ioDict = st2.ioDict := by cases exc <;> rfl
+              have hmo : (finishInit st2 m exc).modules = st2.modules := by cases exc <;> rfl
+              have hgr : (finishInit st2 m exc).groups = st2.groups := by cases exc <;> rfl
+              have hin : (finishInit st2 m exc).inited = st2.inited ++ [m] := by cases exc <;> rfl
+              refine ⟨by rw [hk]; exact l2.knownW, by rw [hmc, hio]; exact l2.mcfgW, by rw [hmo, hmc]; exact l2.names,
+                ?_, ?_⟩
+              · intro x hx
+                rw [hin] at hx
+                rw [hmo]
+                rcases List.mem_append.mp hx with hx | hx
+                · exact l2.initedMods x hx
+                · have : x = m := by simpa using hx
+                  rw [this]; exact hm2
+              · intro x hx hnf hnp
+                rw [hin] at hx
+                have hcx : cfgOf (finishInit st2 m exc) x = cfgOf st2 x := by unfold cfgOf; rw [hmc]
+                rw [hcx] at hnp
+                rw [hmo, hgr]
+                rcases List.mem_append.mp hx with hx | hx
+                · have hnf2 : x ∉ st2.failed := fun hf => hnf (by
+                    simp only [finishInit]
+                    exact nf_failed_mono st2 m exc x hf)
+                  exact l2.reg x hx hnf2 hnp
+                · have hxm : x = m := by simpa using hx
+                  subst hxm
+                  have hexc : exc = none := by
+                    cases exc with
+                    | none => rfl
+                    | some e =>
+                      exfalso
+                      apply hnf
+                      simp only [finishInit]
+                      exact nf_failed_self st2 x e
+                  rw [hcf] at hnp
+                  exact hreg hexc (by rw [needsPoll_setName]; exact hnp)
+
+/-! ### the loops of `create_modules` and the whole initialisation -/
+
+/-- Pinatas are declared statically: no module a Pinata produces is a Pinata itself (the assumption under which the
+Spec's `allMods` lists every module of the node) -/
+def StaticPinatas (cfg : Cfg) : Prop := ∀ d ∈ cfg.dyn, d.cls ≠ Cls.pinata
+
+/-- the descriptions a node can ever know: the declared modules and what their Pinatas produce -/
+def Wr (cfg : Cfg) : List ModCfg :=
+  cfg.mods ++ cfg.dyn.filter (fun d => cfg.mods.any (fun p => p.cls == Cls.pinata && p.scan.contains d.name))
+
+theorem allMods_eq (cfg : Cfg) (io : List (String × Name)) : allMods cfg io = Wr cfg ++ io.map (fun p => autoIo p.2) := rfl
+
+theorem cfgOf_mem {st : St} {n : Name} (h : ∃ x ∈ st.mcfg, x.name = n) : cfgOf st n ∈ st.mcfg ∧ (cfgOf st n).name = n := by
+  obtain ⟨x, hx, hxn⟩ := h
+  unfold cfgOf findCfg
+  cases hf : st.mcfg.find? (fun c => c.name == n) with
+  | none =>
+    have := List.find?_eq_none.mp hf x hx
+    simp [hxn] at this
+  | some y =>
+    exact ⟨List.mem_of_find?_eq_some hf, by simpa using List.find?_some hf⟩
+
+theorem li_createOne (cfg : Cfg) (hsp : StaticPinatas cfg) (fuel : Nat) (c : ModCfg) (st : St) (hl : LI (Wr cfg) st)
+    (hc : c ∈ Wr cfg) :
+    LI (Wr cfg) (createOne fuel cfg.dyn c st).1 ∧ ∀ d ∈ (createOne fuel cfg.dyn c st).2, d ∈ Wr cfg := by
+  unfold createOne
+  split
+  · exact ⟨hl, by intro d hd; cases hd⟩
+  · simp only
+    have l0 : LI (Wr cfg) { st with known := upsertCfg st.known c } := by
+      refine ⟨?_, hl.mcfgW, hl.names, hl.initedMods, hl.reg⟩
+      intro k hk
+      rcases mem_upsert hk with rfl | hk
+      · exact hc
+      · exact hl.knownW k hk
+    have lI := li_getModuleInstance l0 c.name
+    have hres := (getModuleInstance_res { st with known := upsertCfg st.known c } c.name).1
+    cases hI : getModuleInstance { st with known := upsertCfg st.known c } c.name with
+    | mk sI r =>
+      rw [hI] at lI hres
+      cases r with
+      | none => exact ⟨lI, by intro d hd; cases hd⟩
+      | raised cls => exact ⟨lI, by intro d hd; cases hd⟩
+      | ok m =>
+        have hmI : m ∈ sI.modules := by
+          obtain ⟨e, hm⟩ := hres m rfl
+          rw [e]; exact hm
+        simp only
+        split
+        · rename_i hp
+          have l2 := (li_getModule (Wr cfg) fuel sI m lI).1
+          have e2 := ext_getModule fuel sI m
+          cases hG : getModule fuel sI m with
+          | mk s2 r2 =>
+            rw [hG] at l2 e2
+            refine ⟨l2, ?_⟩
+            intro d hd
+            simp only at hd
+            obtain ⟨n, hn, hfd⟩ := List.mem_filterMap.mp hd
+            obtain ⟨hdd, hdn⟩ := findCfg_some hfd
+            have hcf : cfgOf s2 m = cfgOf sI m := cfgOf_stable e2.mcfg m ((lI.names m).mp hmI)
+            have hx := cfgOf_mem ((l2.names m).mp (e2.mods m hmI))
+            have hcls : (cfgOf s2 m).cls = Cls.pinata := by rw [hcf]; simpa using hp
+            rcases l2.mcfgW _ hx.1 with ⟨k, hk, hsim⟩ | ⟨p, _, hauto⟩
+            · have hkc : k.cls = Cls.pinata := by rw [← hsim.2.1]; exact hcls
+              have hkm : k ∈ cfg.mods := by
+                rcases List.mem_append.mp hk with h | h
+                · exact h
+                · exact absurd hkc (hsp k (List.mem_filter.mp h).1)
+              apply List.mem_append_right
+              rw [List.mem_filter]
+              refine ⟨hdd, ?_⟩
+              rw [List.any_eq_true]
+              refine ⟨k, hkm, ?_⟩
+              have : n ∈ k.scan := by rw [← hsim.2.2.2.2]; exact hn
+              simp [hkc, hdn, this]
+            · rw [hauto] at hcls
+              simp [autoIo] at hcls
+        · exact ⟨lI, by intro d hd; cases hd⟩
+
+theorem li_createLoop (cfg : Cfg) (hsp : StaticPinatas cfg) (gfuel : Nat) : ∀ (n : Nat) (todos : List ModCfg) (st : St),
+    LI (Wr cfg) st → (∀ c ∈ todos, c ∈ Wr cfg) → LI (Wr cfg) (createLoop cfg.dyn gfuel n todos st) := by
+  intro n
+  induction n with
+  | zero =>
+    intro todos st hl _
+    cases todos with
+    | nil => exact hl
+    | cons c rest => exact hl.of_ext (Ext.of_same rfl rfl rfl rfl rfl rfl) rfl rfl rfl rfl rfl
+  | succ n ih =>
+    intro todos st hl ht
+    cases todos with
+    | nil => exact hl
+    | cons c rest =>
+      simp only [createLoop]
+      obtain ⟨l1, hmore⟩ := li_createOne cfg hsp gfuel c st hl (ht c (by simp))
+      cases hC : createOne gfuel cfg.dyn c st with
+      | mk s1 more =>
+        rw [hC] at l1 hmore
+        apply ih (rest ++ more) s1 l1
+        intro d hd
+        rcases List.mem_append.mp hd with hd | hd
+        · exact ht d (by simp [hd])
+        · exact hmore d hd
+
+theorem li_initAll (W : List ModCfg) (fuel : Nat) : ∀ (ms : List Name) (st : St), LI W st → LI W (initAll fuel ms st) := by
+  intro ms
+  induction ms with
+  | nil => intro st h; exact h
+  | cons a ms ih => intro st h; exact ih _ (li_getModule W fuel st a h).1
+
+theorem li_core (cfg : Cfg) (hsp : StaticPinatas cfg) (fuel : Nat) : LI (Wr cfg) (core cfg fuel) := by
+  have l0 : LI (Wr cfg) ({ known := cfg.mods } : St) := by
+    refine ⟨fun k hk => List.mem_append_left _ hk, (by intro x hx; cases hx), ?_, (by intro m hm; cases hm),
+      (by intro m hm; cases hm)⟩
+    intro n
+    constructor
+    · intro h; cases h
+    · rintro ⟨x, hx, _⟩; cases hx
+  have l1 := li_createLoop cfg hsp fuel fuel cfg.mods _ l0 (fun c hc => List.mem_append_left _ hc)
+  exact li_initAll _ fuel _ _ (li_initAll _ fuel _ _ l1)
+
+/-- **the link**: in a node that came up, the module object of every module the configuration describes carries the
+class, the poll flag and the parameters of its description, and — when it has something to poll or a start value to
+write — is served by a poll thread that is started -/
+theorem linked_core (cfg : Cfg) (hsp : StaticPinatas cfg) (fuel : Nat) (herr : (core cfg fuel).errors = [])
+    (hoof : (core cfg fuel).oof = false) (hnd : (names (allMods cfg (core cfg fuel).ioDict)).Nodup) :
+    ∀ c ∈ allMods cfg (core cfg fuel).ioDict, c.name ∈ (core cfg fuel).modules →
+      Sim (cfgOf (core cfg fuel) c.name) c ∧
+      (needsPoll c = true → ∃ t ∈ threadsOf (core cfg fuel), c.name ∈ members (core cfg fuel) t) := by
+  intro c hc hm
+  have li := li_core cfg hsp fuel
+  have hx := cfgOf_mem ((li.names c.name).mp hm)
+  have hnd' : ((allMods cfg (core cfg fuel).ioDict).map (·.name)).Nodup := hnd
+  have hsim : Sim (cfgOf (core cfg fuel) c.name) c := by
+    rcases li.mcfgW _ hx.1 with ⟨k, hk, hsim⟩ | ⟨p, hp, hauto⟩
+    · have hk' : k ∈ allMods cfg (core cfg fuel).ioDict := by rw [allMods_eq]; exact List.mem_append_left _ hk
+      have : k = c := nodup_map_inj (·.name) _ hnd' k hk' c hc (by rw [← hsim.1]; exact hx.2)
+      subst this; exact hsim
+    · have hk' : autoIo p.2 ∈ allMods cfg (core cfg fuel).ioDict := by
+        rw [allMods_eq]; exact List.mem_append_right _ (List.mem_map.mpr ⟨p, hp, rfl⟩)
+      have : autoIo p.2 = c := nodup_map_inj (·.name) _ hnd' _ hk' c hc (by rw [← hauto]; exact hx.2)
+      rw [hauto, this]
+      exact ⟨rfl, rfl, rfl, rfl, rfl⟩
+  refine ⟨hsim, ?_⟩
+  intro hnp
+  have hin := core_all_inited cfg fuel herr hoof c.name hm
+  have hnf : c.name ∉ (core cfg fuel).failed := fun h => (top_core cfg fuel).1.failedErr _ h herr
+  have hnp' : needsPoll (cfgOf (core cfg fuel) c.name) = true := by
+    unfold needsPoll writeDict at hnp ⊢
+    rw [hsim.2.2.1, hsim.2.2.2.1]; exact hnp
+  obtain ⟨t, ht, hg⟩ := li.reg c.name hin hnf hnp'
+  have hmem : c.name ∈ members (core cfg fuel) t := by
+    unfold members
+    exact List.mem_map.mpr ⟨(t, c.name), List.mem_filter.mpr ⟨hg, by simp⟩, rfl⟩
+  refine ⟨t, ?_, hmem⟩
+  unfold threadsOf
+  rw [List.mem_filter]
+  refine ⟨ht, ?_⟩
+  cases hmm : members (core cfg fuel) t with
+  | nil => rw [hmm] at hmem; cases hmem
+  | cons a l => rfl
+
+/-- a module with a start value to write is kept in a poll thread (`if self.enablePoll or self.writeDict`) -/
+theorem needsPoll_of_writes (c : ModCfg) (p : String) (h : p ∈ c.writes) : needsPoll c = true := by
+  unfold ModCfg.writes at h
+  obtain ⟨q, hq, _⟩ := List.mem_map.mp h
+  obtain ⟨hqp, hqs⟩ := List.mem_filter.mp hq
+  have hs : (handleWrites q).isSome = true := by
+    simp only [Bool.and_eq_true] at hqs; exact hqs.2
+  unfold needsPoll writeDict
+  cases hh : handleWrites q with
+  | none => rw [hh] at hs; cases hs
+  | some e =>
+    have hmem : e ∈ c.params.filterMap handleWrites := List.mem_filterMap.mpr ⟨q, hqp, hh⟩
+    cases hl : c.params.filterMap handleWrites with
+    | nil => rw [hl] at hmem; cases hmem
+    | cons a l => simp
+
+theorem writes_of_params {x c : ModCfg} (h : x.params = c.params) : x.writes = c.writes := by
+  unfold ModCfg.writes; rw [h]
+
+/-- parameter names are keys: every parameter to be written is listed once -/
+theorem writes_nodup (c : ModCfg) (h : (c.params.map (·.name)).Nodup) : c.writes.Nodup := by
+  unfold ModCfg.writes
+  exact List.Nodup.sublist (List.Sublist.map _ List.filter_sublist) h
+
 end Frappy.Proofs.LifecycleParams
